@@ -33,15 +33,15 @@ func (r Result) String() string {
 // Proc is one long-lived solver process speaking SMT-LIB2 on stdin/stdout.
 type Proc struct {
 	HardMs int    // hard limit per query: the process is killed when exceeded
-	Kind  string // z3 | z3-new | cvc5
-	cmd   *exec.Cmd
-	in    io.WriteCloser
-	out   *bufio.Reader
-	Log   io.Writer // optional transcript
-	wch   chan string
-	dead  bool
-	mu    sync.Mutex
-	Stats *Stats
+	Kind   string // z3 | z3-new | cvc5
+	cmd    *exec.Cmd
+	in     io.WriteCloser
+	out    *bufio.Reader
+	Log    io.Writer // optional transcript
+	wch    chan string
+	dead   bool
+	mu     sync.Mutex
+	Stats  *Stats
 }
 
 type Stats struct {
